@@ -3,6 +3,7 @@
      S <hex>      user send                 T all,k5,again,err   tx script
      X reset|close|end|i:<item>,<item>...   one rx chunk
      R            run (one xmpp_run_once)   C   connect client + fixed negotiation prefix   D   dumpq
+     P <sent|-> <handled|->   smpoke (harness sets the counters)
      O <hex>,<hex>|-   what the connection handler sends on CONNECT (onconnect send:..)
    items: st ot br f1 f0 r a=<dec>|a=bad|a=missing en=<0|1>=<idhex|-> re=<previdhex|->=<h|-> fa=<n|i|f|o>=<h|-> so
    Output: the canonical trace tokens  W<k>:<hex>  SM:<hex|null>  E:connect  E:disconnect  Q[..] SMQ[..]  CRASH *)
@@ -86,6 +87,9 @@ let () = iter_lines (fun line ->
          | 'C' -> let (d', o) = exec !bind_text !d CConnect in d := d'; outs o
          | 'O' -> let l = if arg = "-" || arg = "" then [] else List.map zs_of_hex (String.split_on_char ',' arg) in
                   let (d', o) = exec !bind_text !d (COnConnect l) in d := d'; outs o
+         | 'P' -> (match String.split_on_char ' ' arg with
+                   | [a; b] -> let (d', o) = exec !bind_text !d (CPoke (opt_z a, opt_z b)) in d := d'; outs o
+                   | _ -> failwith ("poke " ^ c))
          | 'D' -> dumpq (!d).d_st
          | 'L' -> emit "|"
          | _ -> failwith ("cmd " ^ c));
